@@ -1261,6 +1261,14 @@ class ConnectionBase(object):
             self.stats.dropped += 1
             return False
 
+        if not self.session_key_bytes:
+            # before a key exists the only thing an unauthenticated datagram
+            # may carry is the single handshake hello this endpoint expects
+            expected = PacketType.CLIENT_HELLO if self.isServer else PacketType.SERVER_HELLO
+            if pkt.hdr.count != 1 or pkt.hdr.pkt_type != expected:
+                self.stats.dropped += 1
+                return False
+
         try:
             # TODO: log warning for packet flooding
             # if inserting dropped unacked bits then those packets will time out
